@@ -59,6 +59,17 @@ def gen_random(rng, tier):
             if t == -(2**63) and n == 0 or t > -(2**63):
                 yield enc(t, n)
 
+def gen_layer(rng, tier):
+    """the same instants as the clock's reading while a real fmt collector (Full / Compact) writes an event: the timestamp at
+    the head of the line"""
+    n = 1500 if tier == 'quick' else 40000
+    for _ in range(n):
+        mag = rng.choice([10**3, 10**9, 10**10, 10**11, 10**12, 10**14, 10**16, 2**62, 2**63 - 1])
+        t = rng.randrange(-mag, mag + 1)
+        yield enc(t, rng.choice([0, rng.randrange(10**9)])) + ' L'
+    for t in [2**63 - 1, -(2**63) + 1, 253402300799, 253402300800, -62167219200, -62167219201, 0, 4107542400]:
+        yield enc(t, 0) + ' L'
+
 def nontrivial(case, out):
     return out not in ('unrepresentable',)
 
@@ -67,6 +78,9 @@ def attribute(stream, case, impl, model, spec):
     if case == '1 9223372036854775808 0' and impl == 'PANIC':
         return 'F19'
     return None
+
+_layer = Stream('layer', 'h_time', gen=gen_layer, bulk=True, nontrivial=nontrivial, judge='judge')
+_layer.model_case = lambda case: case[:-2] if case.endswith(' L') else case
 
 PROPERTY = {
     'manifest': {
@@ -89,6 +103,7 @@ PROPERTY = {
                describe='every day 0001-01-01..9999-12-31 at k times of day'),
         Stream('windows', 'h_time', gen=gen_windows, bulk=True, nontrivial=nontrivial, judge='judge'),
         Stream('random', 'h_time', gen=gen_random, bulk=True, nontrivial=nontrivial, judge='judge'),
+        _layer,
     ],
     'rule': 'cases are instants (before-epoch flag, secs, nanos): complete day sweep of years 0001-9999, every second in '
             'windows around year/leap-day/century/400-year boundaries and the epoch, pre-1970 sub-second edge cases, random '
